@@ -3,6 +3,11 @@ package c02
 import (
 	"fmt"
 	"math/rand"
+	"strings"
+
+	"github.com/ipfs/go-cid"
+	"github.com/multiformats/go-multibase"
+	mh "github.com/multiformats/go-multihash"
 
 	"google.golang.org/protobuf/encoding/protowire"
 
@@ -90,6 +95,44 @@ func assemble(payload, sig []byte) []byte {
 	return b
 }
 
+type altId struct{ class, id string }
+
+// altIds: ids that decode to a CID "matching" the bytes under the parameters the id itself names.
+func altIds(id string, raw []byte) []altId {
+	var out []altId
+	if c, err := cid.Decode(id); err == nil {
+		if s, err := c.StringOfBase(multibase.Base58BTC); err == nil {
+			out = append(out, altId{"respelled:base58btc", s})
+		}
+		if s, err := c.StringOfBase(multibase.Base32Upper); err == nil {
+			out = append(out, altId{"respelled:base32upper", s})
+		}
+	}
+	if h, err := mh.Sum(raw, mh.SHA2_256, -1); err == nil {
+		out = append(out, altId{"other-codec:raw", cid.NewCidV1(0x55, h).String()})
+		out = append(out, altId{"cidv0", cid.NewCidV0(h).String()})
+	}
+	if h, err := mh.Sum(raw, mh.SHA2_256, 1); err == nil {
+		out = append(out, altId{"weak-hash:sha2-256-truncated-to-1-byte", cid.NewCidV1(0x71, h).String()})
+	}
+	if h, err := mh.Sum(raw, mh.SHA2_512, -1); err == nil {
+		out = append(out, altId{"other-hash:sha2-512", cid.NewCidV1(0x71, h).String()})
+	}
+	if len(raw) < 4096 {
+		if h, err := mh.Sum(raw, mh.IDENTITY, -1); err == nil {
+			out = append(out, altId{"weak-hash:identity", cid.NewCidV1(0x71, h).String()})
+		}
+	}
+	// the last base32 character carries padding bits: flip one of them
+	const alpha = "abcdefghijklmnopqrstuvwxyz234567"
+	if n := len(id); n > 1 {
+		if v := strings.IndexByte(alpha, id[n-1]); v >= 0 {
+			out = append(out, altId{"respelled:base32-padding-bit", id[:n-1] + string(alpha[v^1])})
+		}
+	}
+	return out
+}
+
 func randomCid(rng *rand.Rand) string {
 	b := make([]byte, 24)
 	for i := range b {
@@ -144,6 +187,14 @@ func (m *mutator) mutants(c *candidate, attachedIds []string, aclIds []string) [
 		}
 	}
 	out = append(out, item{id: string(idb), raw: c.raw, class: "id:one-char"})
+	// other spellings / other hash parameters for the same bytes: the id of a change is ONE string, the
+	// canonical CIDv1 / dag-cbor / full sha2-256 in base32 - an id that merely "verifies" under the
+	// parameters it names itself is a different id (added after seeded change C02-6 was missed)
+	for _, alt := range altIds(c.id, c.raw) {
+		if alt.id != "" && alt.id != c.id {
+			out = append(out, item{id: alt.id, raw: c.raw, class: "id:" + alt.class})
+		}
+	}
 	// ---- signature
 	if m.otherSig != nil {
 		if s := m.otherSig(c.author); s != nil {
